@@ -44,6 +44,18 @@ class FramedIpAddressAVP(DiameterAVP, AddressType):
             self._data = data
 
 
+    def is_ipv4(self):
+        return True
+
+
+    def is_ipv6(self):
+        return False
+
+
+    def get_ip_address(self):
+        return str(ipaddress.IPv4Address(self.data))
+
+
 class CalledStationIdAVP(DiameterAVP, UTF8StringType):
     """Implementation of Called-Station-Id AVP in Section 4.2.5 of
     IETF RFC 7155.
